@@ -30,7 +30,7 @@ HAND = [
     ("c16-g722-scratch-buffer-kept", "codecs/g722_packet.go",
      ["type G722Payloader struct{}", "\to := make([]byte, len(payload))\n\tcopy(o, payload)\n\n\treturn append(out, o)"],
      ["type G722Payloader struct{ last []byte }", "\tif cap(p.last) < len(payload) {\n\t\tp.last = make([]byte, len(payload))\n\t}\n\to := p.last[:len(payload)]\n\tcopy(o, payload)\n\n\treturn append(out, o)"], ["C16", "C08"]),
-    ("c18-estimate-in-receive-zone", "abssendtimeextension.go", "\treturn toTime(ntp)\n}", "\tt := toTime(ntp)\n\t_, off := receive.Zone()\n\n\treturn t.Add(-time.Duration(off) * time.Second)\n}", ["C18"]),
+    ("c18-estimate-in-receive-zone", "abssendtimeextension.go", "\treturn toTime(ntp)\n}", "\test := toTime(ntp)\n\t_, off := receive.Zone()\n\n\treturn est.Add(-time.Duration(off) * time.Second)\n}", ["C18"]),
     ("c01-drop-last-csrc", "packet.go", "for _, csrc := range h.CSRC {\n\t\tbinary.BigEndian.PutUint32(buf[n:n+4], csrc)",
      "for i, csrc := range h.CSRC {\n\t\tif i == 14 {\n\t\t\tcsrc = 0\n\t\t}\n\t\tbinary.BigEndian.PutUint32(buf[n:n+4], csrc)", ["C01"]),
     ("c01-ext-rounding", "packet.go", "\t\tsize += ((extSize + 3) / 4) * 4\n", "\t\tsize += ((extSize + 4) / 4) * 4\n", ["C01", "C04"]),
